@@ -12,7 +12,7 @@ from vf.elab import mk
 from vf.fhdl2smt import TS, Sem, V, copy_fragment, from_bits, low_bits
 from vf import vexpr
 from vf.vlog import parse_module, VTS, VParseError
-from vf.hw import res
+from vf.hw import res, HwCheck
 from migen import *
 from migen.fhdl.structure import _Assign, _Operator, _Fragment as _FragmentT
 from migen.fhdl.specials import Memory, WRITE_FIRST, READ_FIRST, NO_CHANGE
@@ -738,6 +738,62 @@ def _gen_program(rng):
     d.sync += stmts(regs, 2, True)
     return d, set(ins + combs + regs)
 
+def _quiet_trace(rng, ins, cycles):
+    """input schedule with QUIET cycles: most cycles change exactly one input (or none), the others change everything - an event-driven
+    evaluation that forgets a dependency (a signal read on a target side, a selector, a condition) only shows in cycles where nothing else moves"""
+    cur = [0] * len(ins); tr = []
+    for _ in range(cycles):
+        k = rng.random()
+        if k < 0.65 and ins:
+            j = rng.randrange(len(ins)); cur = list(cur); cur[j] = rng.getrandbits(ins[j].nbits)
+        elif k < 0.85: cur = [rng.getrandbits(i.nbits) for i in ins]
+        tr.append(list(cur))
+    return tr
+
+def _demux_program(rng):
+    """comb de-multiplexers: Array targets selected by a key, the key an input or a register that nothing else reads"""
+    class G(Module): pass
+    d = G(); n = rng.choice([2, 3, 4])
+    key = Signal(max=max(n, 2), name_override="key"); data = Signal(rng.randint(1, 5), name_override="data"); en = Signal(name_override="en")
+    outs = [Signal(len(data), name_override=f"o{k}") for k in range(n)]; regs = [Signal(len(data), name_override=f"q{k}") for k in range(n)]
+    rkey = Signal(max=max(n, 2), name_override="rkey"); beat = Signal(3, name_override="beat")
+    d.comb += Array(outs)[key].eq(data)
+    d.sync += [beat.eq(beat + 1), If(en, rkey.eq(key))]
+    outs2 = [Signal(len(data), name_override=f"p{k}") for k in range(n)]
+    d.comb += Array(outs2)[rkey].eq(data)                          # key is a register: changes at a clock edge while every comb input may stay put
+    d.sync += If(en, Array(regs)[key].eq(data))
+    return d, [key, data, en], set([key, data, en] + outs + outs2 + regs)
+
+def c_sim_conformance(seed, first, count):
+    """the REAL simulator (litex.gen.sim.core.Simulator: commit + combinatorial fix-point + clock edges, the Python event loop itself) against the
+    reference semantics the emitted Verilog is proved equal to (fhdl2smt, design*/generated* cases), on generated programs and comb de-multiplexers
+    under input schedules with quiet cycles.  Every original signal (comb targets after settling, registers) is compared in every cycle.  Bounded."""
+    import random
+    out = []; compared_total = 0
+    for k in range(first, first + count):
+        rng = random.Random(seed * 100003 + k)
+        try:
+            if k % 4 == 0: d, ins, _ = _demux_program(rng)
+            else:
+                d, ios = _gen_program(rng); ins = sorted([s_ for s_ in ios if s_.name_override.startswith("i")], key=lambda s_: s_.name_override)
+            h = HwCheck(f"sim({seed}:{k})", d, ins)
+        except Exception as e:
+            out.append(res(f"sim[{seed}:{k}]", "harness", UNKNOWN, 0, "", info=f"generator/extraction: {type(e).__name__}: {e}")); continue
+        tr = _quiet_trace(rng, h.ts.inputs, 48)
+        t0 = time.time()
+        try: compared, mism = h.cosim(trace=tr)
+        except Exception as e:
+            out.append(res(f"ens.simulator-follows-reference[{seed}:{k}]", "bounded", UNKNOWN, time.time() - t0, "litex.gen.sim", info=f"{type(e).__name__}: {e}")); continue
+        compared_total += compared
+        if mism:
+            out.append(res(f"ens.simulator-follows-reference[{seed}:{k}]", "bounded", VIOLATED, time.time() - t0, "real litex.gen.sim run vs fhdl2smt evaluation (the semantics the emitted Verilog is proved equal to)",
+                           witness=dict(program=("comb de-multiplexer (Array target)" if k % 4 == 0 else "generated program") + f" seed {seed} #{k}", inputs=[str(i) for i in h.ts.inputs], trace=tr[:mism[0][0] + 1],
+                                        first_difference=dict(cycle=mism[0][0], signal=mism[0][1], simulator=mism[0][2], reference=mism[0][3]) if len(mism[0]) == 4 else str(mism[0])), replayed=True))
+        else:
+            out.append(res(f"ens.simulator-follows-reference[{seed}:{k}]", "bounded", BOUNDED_OK, time.time() - t0, "real litex.gen.sim run vs fhdl2smt evaluation", bound=f"48 cycles, {compared} signal values compared"))
+    return dict(results=out, functions=["litex.gen.sim.core.Simulator.run", "litex.gen.sim.core.Simulator._commit_and_comb_propagate", "litex.gen.sim.core.Evaluator.execute", "litex.gen.sim.core.Evaluator.assign", "litex.gen.sim.core.Evaluator.commit"],
+                samples=[dict(programs=f"seed {seed}, programs {first}..{first + count - 1}", schedule="quiet cycles: one input (or none) changes per cycle in 65% of the cycles", values_compared=compared_total)])
+
 def c_random_programs(seed, first, count):
     import random
     out = []
@@ -871,6 +927,7 @@ def cases(tier):
     import os
     seed = int(os.environ.get("VERIF_SEED", "0")); n = 48 if tier == "quick" else 480
     cs += [VCase(f"generated(seed={seed},{f}..{f + 11})", c_random_programs, seed, f, 12, timeout=900) for f in range(0, n, 12)]
+    cs += [VCase(f"sim-conformance(seed={seed},{f}..{f + 11})", c_sim_conformance, seed, f, 12, timeout=900) for f in range(0, 24 if tier == "quick" else 240, 12)]
     return cs
 
 ASSUMPTIONS = ["vf/vexpr.py + vf/vlog.py are a hand-written specification of IEEE 1364-2005 for the emitted subset (self-determined/context widths, sign rules, $signed, concatenation, part-select writes, memories, $readmemh); anything outside the grammar is reported undecided",
